@@ -556,3 +556,48 @@ func Harness_C11_sequence() {
 	}
 	verif_Cover("C11.seq.done")
 }
+
+// A used code replayed: the client holding a code activates it (and gets its mapping); a moment
+// later - seconds to minutes - somebody else on its own authenticated connection, or an
+// unauthenticated connection, sends the same activation (same code, same or another listen
+// address). It is refused and learns nothing about the mapping the first activation created; the
+// mapping stays the activator's.
+func Harness_C11_replayed_activation() {
+	verif_ClockSet(int64(1) << 60)
+	verif_UseTapeRandom()
+	ctx, stop := context.WithCancel(context.Background())
+	w, _, connB, connS, code, _ := c11Setup(ctx)
+	defer func() { w.sm.Close(); stop() }()
+	send := func(rw *c03RW, n, listen string) *c11Seen {
+		b, _ := json.Marshal(&c11Body{Code: code.Code, ListenAddress: listen})
+		from := len(rw.Out.Buf)
+		w.sm.HandlePacket(&types.StreamPacket{ConnectionID: rw.id, Timestamp: time.Now(), Packet: &packet.TransferPacket{PacketType: packet.JsonCommand,
+			CommandPacket: &packet.CommandPacket{CommandType: packet.ConnectionCodeActivate, CommandId: n, CommandBody: string(b)}}})
+		verif_Quiesce()
+		return w.seen(rw, from)
+	}
+	known := len(w.maps.order)
+	r1 := send(connB, "cmd-1", "127.0.0.1:7000")
+	verif_Assert("C11.replay.setup.activated", r1.success && len(w.maps.order) == known+1)
+	newID := w.maps.order[known]
+	verif_Assert("C11.replay.setup.activator_gets_mapping", r1.has(newID))
+	// 0 s, 30 s, 90 s or 150 s later
+	verif_ClockSet(int64(1)<<60 + int64(verif_Choose(4))*int64(time.Minute) - int64(30*time.Second)*int64(verif_Choose(2)))
+	var second *c03RW
+	if verif_Bool() {
+		second = connS
+		verif_Cover("C11.replay.by_stranger")
+	} else {
+		second, _ = w.newConn(0)
+		verif_Quiesce()
+		verif_Cover("C11.replay.by_unauthenticated")
+	}
+	listen := []string{"127.0.0.1:7000", "127.0.0.1:7001"}[verif_Choose(2)]
+	r2 := send(second, "cmd-2", listen)
+	verif_Assert("C11.replay.refused", !r2.success)
+	verif_Assert("C11.replay.mapping_not_disclosed", !r2.has(newID) && !r2.has("pm1"))
+	verif_Assert("C11.replay.no_second_mapping", len(w.maps.order) == known+1)
+	mp, err := w.maps.GetPortMapping(newID)
+	verif_Assert("C11.replay.mapping_stays_the_activators", err == nil && mp != nil && mp.ListenClientID == c11B)
+	verif_Cover("C11.replay.done")
+}
